@@ -63,6 +63,9 @@ func findLoops(fn *ssa.Function) *loopInfo {
 		lp.pos = token.NoPos
 		for b := range lp.body {
 			for _, ins := range b.Instrs {
+				if _, isPhi := ins.(*ssa.Phi); isPhi {
+					continue // a phi carries the position of the variable's declaration
+				}
 				if p := ins.Pos(); p.IsValid() && (lp.pos == token.NoPos || p < lp.pos) {
 					lp.pos = p
 				}
@@ -172,7 +175,7 @@ func (fr *frame) enterLoop(lp *loop, edges []inEdge, label string) (string, *Sta
 	}
 	// havoc
 	ms := fr.loopModSet(lp)
-	fr.havocLevels(st, ms)
+	fr.havocLevels(st, ms, false)
 	for _, ins := range b.Instrs {
 		phi, ok := ins.(*ssa.Phi)
 		if !ok {
@@ -269,7 +272,8 @@ func (fr *frame) loopInvariantsBound(lp *loop) []boundInv {
 	check := func(c *Clause) bool {
 		if c.Header != "" {
 			line := fr.ft.e.lineText(lp.pos)
-			if !strings.Contains(line, c.Header) {
+			// "for {" loops: the first position inside the loop is the first statement of the body
+			if !strings.Contains(line, c.Header) && !strings.Contains(fr.ft.e.sourceBefore(lp.pos, 2), c.Header) {
 				fr.ft.e.contractError(c, fmt.Errorf("loop %d of %s: header %q does not match source %q", lp.ordinal, fr.fn.Name(), c.Header, line))
 				return false
 			}
